@@ -13,7 +13,8 @@
 (* Cut, as documented for Suiron: `!` discards the alternatives of the     *)
 (* goals to its left and the later clauses of the call (as in Prolog),     *)
 (* and the call yields no answer beyond the one being derived when the cut *)
-(* ran.  not(G): one answer with the incoming bindings iff G has none; the *)
+(* ran.  time(G): G's first answer, then the elapsed time is written.      *)
+(* not(G): one answer with the incoming bindings iff G has none; the       *)
 (* search for G's first answer really runs (its output is kept).           *)
 (* This module knows nothing about solution nodes; Solver.tla must refine  *)
 (* it.                                                                     *)
@@ -34,6 +35,8 @@ NlG           == Bip("nl", <<>>)
 AndG(gs)      == G("and", NoT, "", <<>>, gs)
 OrG(gs)       == G("or", NoT, "", <<>>, gs)
 NotG(g)       == G("not", NoT, "", <<>>, <<g>>)
+TimeG(g)      == G("time", NoT, "", <<>>, <<g>>)
+TimeText      == "<time>"       \* stands for the "N seconds M microseconds " that time(...) writes
 UnifyG(x, y)  == Bip("unify", <<x, y>>)
 Clause(h, body) == [head |-> h, body |-> body]
 Fact(h)       == Clause(h, NoGoal)
@@ -110,6 +113,13 @@ Run(P, g, b, n, d) ==
                              pre == BeforeAns(s) IN
                          IF HasE(pre, "over") \/ HasE(pre, "cut") THEN <<OverE>>   \* cut inside not: no claim
                          ELSE IF HasE(s, "ans") THEN pre ELSE pre \o <<AnsE(b, n)>>
+      (* time(G): G's first answer only (at most once), and the elapsed time is written  *)
+      (* when the search for it ends -- with or without an answer                         *)
+      [] g.g = "time" -> LET s == Run(P, g.gs[1], b, n, d)
+                             pre == BeforeAns(s) IN
+                         IF HasE(pre, "over") \/ HasE(pre, "cut") THEN <<OverE>>  \* cut inside time: no claim
+                         ELSE IF HasE(s, "ans") THEN pre \o <<OutE(TimeText), s[Len(pre) + 1]>>
+                         ELSE pre \o <<OutE(TimeText)>>
       [] g.g = "call" -> RunCall(P, g.t, b, n, d)
       [] OTHER -> <<OverE>>
 
